@@ -41,7 +41,8 @@ PROPS['C29'] = dict(
     target='Props/C29',
     theorems=['C29_rejected_no_effect', 'C29_strict_version_required', 'C29_unknown_version_rejected', 'C29_strict_chart_enforced', 'C29_strict_template_required',
               'C29_audit_partial_unspecified', 'C29_audit_partial_chart_ignored', 'C29_audit_template_optional', 'C29_audit_template_resolution', 'C29_defaults', 'C29_audit_refuted_unknown_version'],
-    ties=[dict(name='TIE-D schemahist', vh='schemahist', model='schemahist', n=dict(quick=220, thorough=5000), kinds=['C29']),
+    ties=[dict(name='TIE-D schemahist', vh='schemahist', model='schemahist', n=dict(quick=220, thorough=5000), kinds=['C29'], case_head='shist'),
+          dict(name='TIE-H schemahist http', vh='schemahist', model='schemahisth', n=dict(quick=150, thorough=3000), args=dict(all=['-via', 'http']), kinds=['C29'], case_head='shisth'),
           dict(name='TIE-C chart', vh='chart', model='chart', n=dict(quick=600, thorough=20000), args=dict(all=['-stack', '0']), kinds=['C29'], replayable=False)],
     rule=SCHEMA_RULE + ' || TIE-C: ' + CHART_RULE,
     explanation='Proved for every state/operation (model Ledger/SchemaCtrl.v over Ledger/Core.v and Ledger/Chart.v, any regexp engine): a rejected write changes no table; strict mode rejects '
@@ -58,3 +59,6 @@ PROPS['C29'] = dict(
     level_note='Trusted: Coq kernel, extraction, OCaml glue, Go harness, pgsem (stand-in for PostgreSQL). Idempotency replays are decided before any schema lookup (modelled, generated); '
                'templates are variable-free scripts; only the default numscript runtime is wired in the harness stack.',
 )
+PROPS['C29']['explanation'] += (' TIE-H: the same schema histories are also issued through the real v2 HTTP API (POST /schemas/{version}, writes carrying ?schemaVersion= and '
+                                '{"script":{"template":..}}; status + errorCode of every rejection: 404 NOT_FOUND, 400 SCHEMA_NOT_SPECIFIED, 400 VALIDATION, 409 SCHEMA_ALREADY_EXISTS) and read back '
+                                'through the v2 list endpoints; the trace must equal the model\'s.')
